@@ -13,13 +13,16 @@ func init() {
 		ID: "C16",
 		Decides: "(R16.1) validator/importer agreement: every manifest-consistency validation the repository's block validator (IsValidBlockFromLocalFS) reaches is also reached by the block importer's WriteItem/Save; the importer validates every operation, state and voteproof it stores; " +
 			"(R16.2) IsValidVoteproofsWithManifest succeeds only for voteproofs of the manifest's height and one point, with an ACCEPT MAJORITY whose new block equals the manifest hash; the tree-with-manifest validators compare the tree root with the manifest's root, the element count, duplicates and membership; the proposal validator compares height and fact hash; " +
-			"(R16.3) an imported item is accepted only if its checksum equals the block map's, an item is marked finished only after it was imported, and Save requires all items finished; (R16.4) the block validator itself applies all of its checks before success.; (R16.5) a voteproofs item yields exactly one INIT and one ACCEPT voteproof: a slot is filled only while empty and under a lock",
+			"(R16.3) an imported item is accepted only if its checksum equals the block map's, an item is marked finished only after it was imported, and Save requires all items finished; (R16.4) the block validator itself applies all of its checks before success.; (R16.5) a voteproofs item yields exactly one INIT and one ACCEPT voteproof: a slot is filled only while empty and under a lock; " +
+			"(R16.6) every item type the validator decodes is decoded by the importer (not merely copied and checksummed); (R16.7) the importer's voteproof checks reach a recount of the sign facts (the declared result/majority alone is the sender's word)",
 		NotDecided: "equality of what the importer stores with what the validator reads back for all inputs; the decoders (C27); signature cryptography.",
 		Run:        runC16,
 	})
 }
 
 func runC16(c *Ctx) {
+	importerDecodesRules(c)
+	voteproofRecountRules(c)
 	// R16.5: what the importer and the validator look at is what the item holds: a voteproofs item yields one
 	// INIT and one ACCEPT voteproof, a second one of a kind is refused (the lines are decoded by concurrent workers)
 	c.Rule("R16.5", "MustPass")
@@ -241,4 +244,143 @@ func isfinishedRules(c *Ctx) {
 		c.Exists(fn, "the flag starts as its zero value (not unfinished)", c.StoresD(fn, "&"+flag), 0)
 		c.Report(fn, "the flag is not written outside the walk", fn.Pos(), len(c.StoresD(fn, "&"+flag)) == 0, "")
 	}
+}
+
+// itemDispatch reads a switch over a block item type: item type constant -> the calls of the case
+// body; "" -> the calls of the default body. v is the switched value's descriptor.
+func itemDispatch(c *Ctx, f *ssa.Function, v string) map[string][]ssa.Instruction {
+	out := map[string][]ssa.Instruction{}
+	bodyCalls := func(b *ssa.BasicBlock) []ssa.Instruction {
+		var calls []ssa.Instruction
+		for _, in := range b.Instrs {
+			if callCommon(in) != nil {
+				calls = append(calls, in)
+			}
+		}
+		return calls
+	}
+	for _, b := range f.Blocks {
+		if len(b.Instrs) == 0 {
+			continue
+		}
+		iff, ok := b.Instrs[len(b.Instrs)-1].(*ssa.If)
+		if !ok {
+			continue
+		}
+		d := c.D(iff.Cond)
+		pre := "(" + v + " == base.BlockItem"
+		if !strings.HasPrefix(d, pre) {
+			continue
+		}
+		k := strings.TrimSuffix(strings.TrimPrefix(d, "("+v+" == "), ")")
+		out[k] = bodyCalls(b.Succs[0])
+		// the false successor that is not another test of the switch is the default body
+		if nb := b.Succs[1]; len(nb.Instrs) > 0 {
+			if nif, isIf := nb.Instrs[len(nb.Instrs)-1].(*ssa.If); !isIf || !strings.HasPrefix(c.D(nif.Cond), pre) {
+				out[""] = bodyCalls(nb)
+			}
+		}
+	}
+	return out
+}
+
+// importerDecodesRules (R16.6): the block validator decodes every item of a block before it
+// validates it (a proposal that does not decode, or whose signature is not the proposer's for this
+// network, is refused). The importer must decode each item type the validator decodes: an item that
+// is only copied and checksummed is stored whatever it holds.
+func importerDecodesRules(c *Ctx) {
+	c.Rule("R16.6", "SiblingAgreement")
+	vparent := c.Need("isaac/block.loadBlockItemsFromReader")
+	iparent := c.Need("isaac/block.(*BlockImporter).importItem")
+	if vparent == nil || iparent == nil {
+		return
+	}
+	decodes := func(calls []ssa.Instruction, pats ...string) bool {
+		for _, in := range calls {
+			cc := callCommon(in)
+			if matchAny(CalleeFullName(cc), pats) {
+				return true
+			}
+			if cal := CalleeOf(cc); cal != nil {
+				for n := range c.ReachableCallees(2, cal) {
+					if matchAny(n, pats) {
+						return true
+					}
+				}
+			}
+		}
+		return false
+	}
+	var vtab, itab map[string][]ssa.Instruction
+	var vf, ifn *ssa.Function
+	for _, f := range WithClosures(vparent) {
+		if t := itemDispatch(c, f, "item"); len(t) > len(vtab) {
+			vtab, vf = t, f
+		}
+	}
+	for _, f := range WithClosures(iparent) {
+		if t := itemDispatch(c, f, "t"); len(t) > len(itab) {
+			itab, ifn = t, f
+		}
+	}
+	if vf == nil || ifn == nil {
+		c.Unresolved(iparent, "item dispatch", "switch over the item type not found in the validator's loader or the importer")
+		return
+	}
+	var keys []string
+	for k := range vtab {
+		if k != "" && decodes(vtab[k], "isaac/block.decodeBlockItemFromReader", "isaac/block.decodeBlockItemsFromReader") {
+			keys = append(keys, k)
+		}
+	}
+	sort.Strings(keys)
+	c.Floor(vf, "item types the validator decodes", len(keys), 6)
+	for _, k := range keys {
+		calls, found := itab[k]
+		how := "its own case"
+		if !found {
+			calls, how = itab[""], "the default case"
+		}
+		names := []string{}
+		for _, in := range calls {
+			names = append(names, CalleeFullName(callCommon(in)))
+		}
+		c.Report(ifn, "the importer decodes the item "+k+" the validator decodes", ifn.Pos(),
+			decodes(calls, "(isaac.BlockItemReader).Decode", "(isaac.BlockItemReader).DecodeItems"),
+			"handled by "+how+": "+strings.Join(names, ", ")+" (no Decode/DecodeItems of the item reader within depth 2)")
+	}
+}
+
+// voteproofRecountRules (R16.7): "an ACCEPT majority for the manifest hash" is a statement about
+// the sign facts of the voteproof. The result and majority a voteproof declares are its sender's
+// words; only a recount of the sign facts (Threshold.VoteResult over CountBallotSignFacts, as
+// base.IsValidVoteproofWithSuffrage does) makes them a majority. The importer's voteproof checks
+// (its own calls plus the IsValid methods of the concrete voteproofs, which it calls through the
+// interface) must reach such a recount.
+func voteproofRecountRules(c *Ctx) {
+	c.Rule("R16.7", "SiblingAgreement")
+	fn := c.Need("isaac/block.(*BlockImporter).importVoteproofs")
+	if fn == nil {
+		return
+	}
+	roots := []*ssa.Function{fn}
+	n := 0
+	for _, k := range []string{"isaac.(INITVoteproof).IsValid", "isaac.(ACCEPTVoteproof).IsValid"} {
+		if f := c.Need(k); f != nil {
+			roots = append(roots, f)
+			n++
+		}
+	}
+	c.Floor(fn, "concrete voteproof validators reached through the interface", n, 2)
+	R := c.ReachableCallees(5, roots...)
+	recount := []string{"base.IsValidVoteproofWithSuffrage", "isaac.IsValidVoteproofWithSuffrage", "(base.Threshold).VoteResult", "base.FindVoteResult"}
+	ok := false
+	for _, r := range recount {
+		if R[r] {
+			ok = true
+		}
+	}
+	c.Report(fn, "the declared result and majority of an imported voteproof are recounted from its sign facts", fn.Pos(), ok,
+		"none of "+strings.Join(recount, ", ")+" is reachable from importVoteproofs, INITVoteproof.IsValid or ACCEPTVoteproof.IsValid (static calls, depth 5): Result() and BallotMajority() are the voteproof's own declaration")
+	c.Report(fn, "the checks do reach the per-sign-fact validation (sanity of the reachability)", fn.Pos(), R["base.IsValidVoteproof"] || R["base.isValidVoteproofSignFacts"], "")
 }
